@@ -9,7 +9,7 @@ from common import NS_MS, NS_US
 U = 250 * NS_MS     # time grid of the generated histories
 
 
-def gen_filter(rnd: random.Random, depth: int = 0):
+def gen_filter(rnd: random.Random, depth: int = 0, empty_any: bool = False):
     r = rnd.random()
     if r < 0.25:
         return ('dow', sorted(rnd.sample(range(1, 8), rnd.randint(1, 6))))
@@ -26,13 +26,17 @@ def gen_filter(rnd: random.Random, depth: int = 0):
             lo, hi = hi, lo + 1_000_000_000      # an empty window only rarely
         return ('time', lo, hi)
     if r < 0.8:
-        return ('not', gen_filter(rnd, depth + 1))
+        return ('not', gen_filter(rnd, depth + 1, empty_any))
     k = 'any' if r < 0.9 else 'all'
+    if rnd.random() < 0.12 and (k == 'all' or empty_any):
+        # a group without members is legal: all() accepts every instant, any() none (the latter makes a trigger
+        # unsatisfiable - seconds per query on the real code - so it is generated for the filter checks only)
+        return (k, [])
     if rnd.random() < 0.3:
         # a group whose only member is a group of the other kind
         other = 'all' if k == 'any' else 'any'
-        return (k, [(other, [gen_filter(rnd, depth + 2) for _ in range(rnd.randint(2, 3))])])
-    return (k, [gen_filter(rnd, depth + 1) for _ in range(rnd.randint(1, 3))])
+        return (k, [(other, [gen_filter(rnd, depth + 2, empty_any) for _ in range(rnd.randint(2, 3))])])
+    return (k, [gen_filter(rnd, depth + 1, empty_any) for _ in range(rnd.randint(1, 3))])
 
 
 def gen_sched_producer(rnd: random.Random, now: int, depth: int = 0):
@@ -250,17 +254,67 @@ def gen_recurring_case(seed: int, rnd: random.Random) -> SchedCase:
         d = rnd.choice([6 * NS_HOUR, 12 * NS_HOUR, NS_DAY, 36 * NS_HOUR, 90 * NS_MIN])
         emit(f'sleepl {d} {late}' if late else f'sleep {d}')
         done += d
-        if rnd.random() < 0.08:
+        if rnd.random() < 0.12:
             h = rnd.randint(1, n)
             if h in paused:
                 emit(f'resume {h}')
                 paused.discard(h)
-            else:
+            elif rnd.random() < 0.5:
                 emit(f'pause {h}')
                 paused.add(h)
+            else:
+                emit(f'resume {h}')         # resuming a job that is not paused is legal and must not change its schedule
             emit('yield')
     meta = {'executor': executor, 'ops': len(lines), 'jobs': n, 'tz': zc.name, 'scenario': 'recurring'}
     return SchedCase(seed, executor, epoch, lines, specs, meta, zc.name)
+
+
+def gen_reentrant_case(seed: int, rnd: random.Random) -> SchedCase:
+    """directed scenario (model: `Reentrant.lean`, not the operation model of `Sched.lean`): several jobs are due in one
+    wake-up and the synchronous callable of one of them creates a further job that is due at once — later than some
+    of the jobs that are still waiting in that wake-up, possibly earlier than others"""
+    tzname, epoch = pick_epoch(rnd)
+    lines: list[str] = []
+
+    def emit(x: str) -> None:
+        lines.append('op ' + x)
+    n = rnd.randint(2, 6)
+    far = [rnd.randint(1, 12) for _ in range(n)]
+    wake = max(far) + rnd.randint(2, 8)            # the loop was blocked until then (in units of U)
+    now = wake * U
+    dues = []
+    for k in far:
+        # some of the waiting jobs are due just before the wake-up: a job created "now" may sort in front of them
+        dues.append(now - rnd.choice([0, 10, 30, 60, 90]) * 1_000_000 if rnd.random() < 0.35 else k * U)
+    order = list(range(n))
+    rnd.shuffle(order)
+    due_of: dict[int, int] = {}
+    created: list[int] = []
+    for i in order:
+        h = i + 1
+        due_of[h] = dues[i]
+        created.append(h)
+        emit(f'create {h} - (once {epoch + dues[i]}) - -')
+        emit('yield')
+    spawner = rnd.randint(1, n)
+    hx = n + 1
+    # due at once (a one-shot instant may lie up to 100 ms in the past)
+    tx = now - rnd.choice([0, 1_000, 20_000_000, 50_000_000, 95_000_000])
+    due_of[hx] = tx
+    emit(f'spawn {spawner} 0 {hx} {epoch + tx}')
+    if rnd.random() < 0.5:
+        emit(f'advance {now}')
+        emit('yield')
+    else:
+        emit('enable 0')
+        emit(f'sleep {now}')
+        emit('enable 1')
+        emit('yield')
+    emit(f'sleep {2 * U}')
+    meta = {'executor': 'sync', 'ops': len(lines), 'jobs': n + 1, 'tz': tzname, 'scenario': 'reentrant',
+            'dues': {str(k): v for k, v in due_of.items()}, 'spawned': {str(hx): spawner}, 'now': now,
+            'created': created}
+    return SchedCase(seed, 'sync', epoch, lines, {}, meta, tzname)
 
 
 def gen_tight_case(seed: int, rnd: random.Random) -> SchedCase:
